@@ -1386,7 +1386,7 @@ class Date(Atomic):
                     year += 2000
                 elif year < 100:
                     year += 1900
-                elif year < 1900:
+                elif (year < 1900) or (year > 2154):
                     raise ValueError("invalid year")
 
             # extract the month and normalize
